@@ -202,7 +202,9 @@ Section Glue.
     destruct (all_some_In _ _ _ _ Hfr Hin) as (fn & Hfn & Hof).
     apply filter_In in Hfn as [Hfn _]. apply In_nth_error in Hfn as [j Hj].
     destruct fn as [k attrs]. destruct k; try discriminate Hof.
-    destruct attrs as [|[|fss| | | |] [|a1' [|[|nm| | | |] [|[| |[|] | | |] [|a4' [|[|[[] [|[|tn| | | |] ?]]| | | |] r']]]]]]; try discriminate Hof.
+    destruct attrs as [|[|fss| | | |] [|a1' [|[|nm| | | |] [|[| |[|] | | |] [|a4' [|[|tcn| | | |] r']]]]]]; try discriminate Hof.
+    destruct tcn as [tk tat]. destruct tk; try discriminate Hof.
+    destruct tat as [|[|tn| | | |] rt5]; try discriminate Hof.
     cbn [frag_of] in Hof. destruct (sels_of fl fss) as [body|] eqn:Eb; [|discriminate]. inversion Hof; subst fr.
     cbn [fr_sels fr_name] in *.
     destruct (proj1 (spreads_glue fss) body Eb ([(O, j)] ++ [(O, O)])%nat b Hb) as (sp & Hsp & Hn).
@@ -215,7 +217,12 @@ Section Glue.
     (forall a, ~ Cyclic (frags_of (xdefs d)) a) -> xacyclic (d_frags x).
   Proof.
     intros Hx Hno a Hc. apply (Hno a). unfold Cyclic.
-    induction Hc as [u v Huv|u v w _ IH1 _ IH2]; [apply t_step; eapply xedge_spreads; eauto | eapply t_trans; eauto].
+    assert (Hall : forall u v, clos_trans Value.str (xedge (d_frags x)) u v ->
+                               clos_trans Rules.str (Spreads (frags_of (xdefs d))) u v).
+    { intros u v H. induction H as [u v Huv|u v w _ IH1 _ IH2].
+      - apply t_step. eapply xedge_spreads; eauto.
+      - apply t_trans with v; assumption. }
+    apply Hall. exact Hc.
   Qed.
 
   (* NoFragmentCycles and UniqueFragmentNames silent => the expansion of the translated operation is finite *)
@@ -224,6 +231,9 @@ Section Glue.
     exists n, hb (d_frags x) n (d_sels x).
   Proof.
     intros Hx Hu Hc. apply acyclic_finite. apply (to_exec_acyclic d x Hx).
-    apply (proj1 (no_fragment_cycles_nil d [] (proj1 (unique_fragment_names_nil d) Hu) Hc) eq_refl).
+    assert (Hnd : NoDup (map f_name (frags_of (xdefs d)))).
+    { pose proof (proj1 (unique_fragment_names_nil d) Hu) as Hu'. unfold UniqueNames in Hu'.
+      rewrite (named_frags_names d) in Hu'. exact Hu'. }
+    apply (proj1 (no_fragment_cycles_nil d [] Hnd Hc) eq_refl).
   Qed.
 End Glue.
